@@ -281,4 +281,17 @@ theorem C03_batchWith (bits limbs c : ℕ) (base : G) (scalars : List ℕ) (hc1 
 /-- bn254: fr.Bits = 254, fr.Limbs = 4, window 5 -/
 example : (1 : ℕ) ≤ 5 ∧ 5 ≤ 16 ∧ 254 ≤ 64 * 4 ∧ lastC 254 5 ≤ 15 := by decide
 
+/-- Aliasing (op `C03 alias <pat> <line>`): the specification is BY VALUE. Whatever sharing pattern between the receiver, the
+point operands and the scalars the harness executes the call with, the model's answer is the answer to the same line on
+distinct objects (`handle line`: the value computed in the exponent, cross-checked against the hand model). -/
+theorem C03_alias_by_value (pat : String) (line : List String) (h : aliasOK pat line = true) :
+    handleTop ("alias" :: pat :: line) = handle line := by
+  simp only [handleTop, h, if_true]
+
+/-- … hence it does not depend on the alias token: two admissible patterns on the same line get the same answer. -/
+theorem C03_alias_irrelevant (pat₁ pat₂ : String) (line : List String)
+    (h₁ : aliasOK pat₁ line = true) (h₂ : aliasOK pat₂ line = true) :
+    handleTop ("alias" :: pat₁ :: line) = handleTop ("alias" :: pat₂ :: line) := by
+  rw [C03_alias_by_value pat₁ line h₁, C03_alias_by_value pat₂ line h₂]
+
 end GV.ScalarMul
